@@ -1053,7 +1053,28 @@ fn placeholder() -> &'static str {
     "__placeholder"
 }
 
+/// Makes the invisible groups of `macro_rules!` fragments (`$e:expr`) visible: rustc does not honour them when it
+/// parses the output of a procedural macro, so `$ * $e` with `$e = 2 + 1` would otherwise mean `($ * 2) + 1`.
+fn parenthesize_invisible_groups(input: TokenStream) -> TokenStream {
+    let mut ts = TokenStream::new();
+    for i in input {
+        if let TokenTree::Group(g) = &i {
+            let delimiter = match g.delimiter() {
+                proc_macro2::Delimiter::None => proc_macro2::Delimiter::Parenthesis,
+                d => d,
+            };
+            let mut g2 = proc_macro2::Group::new(delimiter, parenthesize_invisible_groups(g.stream()));
+            g2.set_span(g.span());
+            ts.extend(once(TokenTree::Group(g2)));
+        } else {
+            ts.extend(once(i));
+        }
+    }
+    ts
+}
+
 fn dollar_token_to_placeholder(input: TokenStream) -> TokenStream {
+    let input = parenthesize_invisible_groups(input);
     replace_tokens(
         input,
         &|t| matches!(t, TokenTree::Punct(p) if p.as_char() == '$'),
